@@ -113,16 +113,28 @@ let dec_impl_load x : (proc, load_err option) Either.t = match x with
       | _ -> None)
   | _ -> bad "impl load result: %s" (to_string x)
 
+(* the documented messages for an error as the implementation reported it (class + fields); the fields of a
+   PathLockError do not tell which of the three raising sites it came from: all three are offered *)
+let msgs_of_impl_err e = match e with
+  | EPathLock (_, st, lk, cap) ->
+    List.concat_map (fun k -> load_err_msgs (EPathLock (k, st, lk, cap))) [PlNone; PlMultiple; PlDifferent]
+  | e -> load_err_msgs e
 let h_loader args = match args with
   | d :: impl :: _ ->
     let d = dec_desc d in
+    let model = load_proc_desc d in
+    let imsgs = match dec_impl_load impl with
+      | Either.Right (Some e) -> msgs_of_impl_err e
+      | _ -> [] in
+    let mmsgs = match model with LoadErr e -> load_err_msgs e | _ -> [] in
     let checks = match dec_impl_load impl with
       | Either.Left p ->
         [chk "C09" (c09_checkb p); chk "C10" (c10_checkb d p); chk "C11" (c11_accept_ok d p);
          chk "C12" (c12_order_checkb p && c12_classify_checkb p)]
       | Either.Right (Some e) -> [chk "C11" (c11_error_okw d e)]
       | Either.Right None -> [chk "C11" false] in
-    [L [A "model"; enc_load_res (load_proc_desc d)]; L (A "chk" :: checks)]
+    [L [A "model"; enc_load_res model]; L (A "chk" :: checks);
+     L [A "msgs"; enc_list enc_cstr imsgs]; L [A "mmsgs"; enc_list enc_cstr mmsgs]]
   | _ -> bad "loader args"
 
 (* parts in the supplied order: (ins outs inouts ints) *)
@@ -217,11 +229,11 @@ let h_parse args = match args with
 let enc_instr i = L [enc_list enc_cstr i.i_srcs; enc_cstr i.i_dst; enc_cstr i.i_cat]
 let enc_isa_res r = match r with
   | IsaOk m -> L [A "ok"; enc_list (fun (k, v) -> L [enc_cstr k; enc_cstr v]) m]
-  | IsaErr (IsaDup (o, n)) -> L [A "err"; L [A "DupElemError"; enc_cstr o; enc_cstr n]]
-  | IsaErr (IsaUndefCap c) -> L [A "err"; L [A "UndefElemError"; enc_cstr c]]
+  | IsaErr (IsaDup (o, n)) -> L [A "err"; L [A "DupElemError"; enc_cstr o; enc_cstr n]; enc_cstr (isa_err_msg (IsaDup (o, n)))]
+  | IsaErr (IsaUndefCap c) -> L [A "err"; L [A "UndefElemError"; enc_cstr c]; enc_cstr (isa_err_msg (IsaUndefCap c))]
 let enc_comp_res r = match r with
   | CompOk p -> L [A "ok"; enc_list enc_instr p]
-  | CompUndef (n, l) -> L [A "err"; L [A "UndefElemError"; enc_cstr n; enc_nat l]]
+  | CompUndef (n, l) -> L [A "err"; L [A "UndefElemError"; enc_cstr n; enc_nat l]; enc_cstr (comp_err_msg n l)]
 (* isa: table ((instr cap)...), capabilities (...), program to compile *)
 let h_isa args = match args with
   | spec :: caps :: prog :: _ ->
